@@ -1,0 +1,5 @@
+//go:build !verif
+
+package qr
+
+func verifEmit(ev string, who interface{}, a, b int) {}
